@@ -67,6 +67,16 @@ pub fn seed() -> i64 {
     std::env::var("VERIF_SEED").ok().and_then(|s| s.parse().ok()).unwrap_or(0)
 }
 
+/// Where evidence and replays are written: /verif, or the directory named by
+/// VERIF_OUT_DIR (used when trying seeded changes, so that the registered
+/// evidence is not overwritten by runs on a modified tree).
+pub fn out_root() -> PathBuf {
+    match std::env::var("VERIF_OUT_DIR") {
+        Ok(d) if !d.is_empty() => PathBuf::from(d),
+        _ => PathBuf::from(VERIF_DIR),
+    }
+}
+
 pub fn arg_value(args: &[String], name: &str) -> Option<String> {
     args.iter().position(|a| a == name).and_then(|i| args.get(i + 1)).cloned()
 }
@@ -126,7 +136,7 @@ impl Outcome {
             }
         }
         // replay files for unknown findings (deduplicated by signature)
-        let replay_dir = PathBuf::from(VERIF_DIR).join("replays");
+        let replay_dir = out_root().join("replays");
         let _ = std::fs::create_dir_all(&replay_dir);
         let mut seen_sigs: Vec<String> = Vec::new();
         let mut lines = Vec::new();
@@ -175,7 +185,7 @@ impl Outcome {
             "wall_s": self.started.elapsed().as_secs_f64(),
             "violations": seen_sigs.len(),
         });
-        let ev_dir = PathBuf::from(VERIF_DIR).join("evidence");
+        let ev_dir = out_root().join("evidence");
         let _ = std::fs::create_dir_all(&ev_dir);
         let _ = std::fs::write(
             ev_dir.join(format!("{}.json", self.property)),
